@@ -977,7 +977,7 @@ impl Prop for RandomPart {
         "random"
     }
     fn cases(&self, tier: Tier) -> u64 {
-        tier.pick(1_000_000, 24_000_000)
+        tier.pick(1_000_000, 8_000_000)
     }
     fn strategy(&self, _tier: Tier) -> BoxedStrategy<RandomCase> {
         (
@@ -1213,7 +1213,7 @@ impl Prop for DocDeleteSets {
         "doc-delete-sets"
     }
     fn cases(&self, tier: Tier) -> u64 {
-        tier.pick(200_000, 4_500_000)
+        tier.pick(200_000, 1_500_000)
     }
     fn strategy(&self, tier: Tier) -> BoxedStrategy<DocCase> {
         use crate::ops::Profile;
